@@ -43,3 +43,10 @@ Fixpoint sortedb (l : list N) : bool :=
   | [] => true
   | x :: r => match r with [] => true | y :: _ => (x <? y) && sortedb r end
   end.
+
+Fixpoint eqlN (a b : list N) : bool :=
+  match a, b with
+  | [], [] => true
+  | x :: a', y :: b' => (x =? y) && eqlN a' b'
+  | _, _ => false
+  end.
